@@ -36,6 +36,9 @@ CONFIGS = {
     # one chunk per xorb and three upload permits: registrations wait for a permit while uploads are in flight
     "P": dict(BASE, HF_XET_MAX_XORB_CHUNKS="1", HF_XET_MAX_XORB_BYTES="100000", HF_XET_NRANGES_IN_STREAMING_FRAGMENTATION_ESTIMATOR="4",
               HF_XET_MAX_CONCURRENT_UPLOADS="3"),
+    # a chunk index cap that a 14-session history (about 60 chunks) stays far below
+    "H": dict(BASE, HF_XET_MAX_XORB_CHUNKS="4", HF_XET_MAX_XORB_BYTES="100000", HF_XET_NRANGES_IN_STREAMING_FRAGMENTATION_ESTIMATOR="128",
+              HF_XET_CHUNK_INDEX_TABLE_MAX_SIZE="150"),
     "E": {"HF_XET_TARGET_CHUNK_SIZE": "256", "HF_XET_MAX_XORB_CHUNKS": "3", "HF_XET_MAX_XORB_BYTES": "4096",
           "HF_XET_NRANGES_IN_STREAMING_FRAGMENTATION_ESTIMATOR": "128"},
 }
@@ -66,6 +69,8 @@ def run_all(ctx, props, faults=1):
             ("A", "sweep", 1, {"nputs": 8}), ("G", "sweep", 1, {"nputs": 10}),
             # all upload permits taken by slow uploads, one of which fails while the next registration waits
             ("P", "saturate", 1, {}),
+            # a long history of sessions against one shard cache, each re-uploading its predecessor's file
+            ("H", "history", 2 * k, {"blocks": 200, "sessions": 14}),
             # 10-16 files cleaned concurrently with session-shard flushes in between, then re-uploaded
             ("S", "cstorm", 6 * k, {"blocks": 200})]
     counts = {}
